@@ -35,12 +35,13 @@ def E101(lex, ids, k):
         [lex['id']],
         [f['id'] for e in entries(lex) for f in e.get('forms', []) if f.get('id')],
         [sb['id'] for sb in lex.get('frames', []) if sb.get('id')],
+        [sb['id'] for e in entries(lex) for sb in e.get('frames', []) if sb.get('id')],     # entry-level frames
         [e['id'] for e in entries(lex)],
         [s['id'] for e in entries(lex) for s in senses(e)],
         [ss['id'] for ss in synsets(lex)],
     ]
     same = any(TWICE(k, src) for src in sources)
-    cross = any(occurs(k, sources[i]) and occurs(k, sources[j]) for i in range(6) for j in range(6) if i < j)
+    cross = any(occurs(k, sources[i]) and occurs(k, sources[j]) for i in range(7) for j in range(7) if i < j)
     return same or cross
 
 
@@ -56,9 +57,12 @@ def W202(lex, ids, k):
 
 
 def W203(lex, ids, k):
-    """Redundant lexical entry with the same lemma and synset (keyed by the lemma)"""
-    pairs = [(e['lemma']['writtenForm'], s['synset']) for e in entries(lex) for s in senses(e)]
-    return any(p[0] == k and TWICE(p, pairs) for p in pairs)
+    """Redundant lexical entry with the same lemma and synset (keyed by the lemma): two DIFFERENT entries with the
+    lemma k that both have a sense in one synset (two senses of a single entry in a synset are W202, not W203)"""
+    es = entries(lex)
+    return any(e1['lemma']['writtenForm'] == k and e2['lemma']['writtenForm'] == k
+               and any(s1['synset'] == s2['synset'] for s1 in senses(e1) for s2 in senses(e2))
+               for i, e1 in enumerate(es) for j, e2 in enumerate(es) if i != j)
 
 
 def E204(lex, ids, k):
